@@ -39,6 +39,7 @@ def _alphabet():
   A.append(('apply(sum a,b -> c)', {'a', 'b'}, lambda t, s: t.apply(fn=f_sum, input_keys=('a', 'b'), output_keys='c'), lambda r: {'c': r['a'] + r['b']}, lambda ks: {'c'}))
   A.append(('apply(kwargs x=a,y=b -> c)', {'a', 'b'}, lambda t, s: t.apply(fn=f_kw, input_keys=dict(x='a', y='b'), output_keys='c'), lambda r: {'c': 10 * r['a'] + r['b']}, lambda ks: {'c'}))
   A.append(('apply(two a -> (d,e))', {'a'}, lambda t, s: t.apply(fn=f_two, input_keys='a', output_keys=('d', 'e')), lambda r: {'d': r['a'] + 1, 'e': r['a'] + 2}, lambda ks: {'d', 'e'}))
+  A.append(('apply(two a -> (SKIP,h))', {'a'}, lambda t, s: t.apply(fn=f_two, input_keys='a', output_keys=(Key.SKIP, 'h')), lambda r: {'h': r['a'] + 2}, lambda ks: {'h'}))
   A.append(('assign(c = sum a,b)', {'a', 'b'}, lambda t, s: t.assign('c', fn=f_sum, input_keys=('a', 'b')), lambda r: dict(r, c=r['a'] + r['b']), lambda ks: ks | {'c'}))
   A.append(('assign((d,e) = two a)', {'a'}, lambda t, s: t.assign(('d', 'e'), fn=f_two, input_keys='a'), lambda r: dict(r, d=r['a'] + 1, e=r['a'] + 2), lambda ks: ks | {'d', 'e'}))
   A.append(('assign(n.x = neg a)', {'a'}, lambda t, s: t.assign(Key().n.x, fn=f_neg, input_keys='a'),
@@ -56,7 +57,7 @@ def _records():
 
 
 def bounded_operator_chains(p):
-  S = Search(p, dict(chains='all sequences of <=3 operators from 11 (select/apply/assign/filter/sink with tuple, dict/kwargs, nested-path, SKIP keys)',
+  S = Search(p, dict(chains='all sequences of <=3 operators from 12 (select/apply/assign/filter/sink with tuple, dict/kwargs, nested-path, SKIP keys)',
                      stream='3 dict records with a nested value', fused_vs_named='both', threads='0'))
   alpha = _alphabet()
   for n in range(1, 4):
